@@ -3,13 +3,43 @@ import hsuite
 from props.c03 import TRUSTED, ASSUMPTIONS
 COQCHK = False
 NAMES = ['c15', 'c12']
-PROFILE = {'quick': 500, 'thorough': 3000, 'lengths': [10, 18, 26], 'finale': ['settle'], 'weights': {'bad': 14, 'post': 16, 'poll': 14, 'disc': 8, 'disc_all': 2, 'send': 8, 'api': 6, 'adv': 8, 'frame': 8, 'upgrade': 4, 'open_ws': 4, 'open_rej': 3}, 'p_async': 0.35}
+def _many_sends():
+    # a client that does not read: every application call must still return
+    sends = [('send', 0, i + 1) for i in range(70)]
+    return [[('open', 'polling', 'accept'), ('poll', 0)] + sends + [('post', 0, ('pk', ['upgrade'])), ('getsess', 0)],
+            [('open', 'polling', 'accept')] + sends + [('transport', 0), ('poll', 0), ('poll', 0)]]
+
+
+PROFILE = {'fixed': _many_sends(), 'quick': 500, 'thorough': 3000, 'lengths': [10, 18, 26], 'finale': ['settle'], 'weights': {'bad': 14, 'post': 16, 'poll': 14, 'disc': 8, 'disc_all': 2, 'send': 8, 'api': 6, 'adv': 8, 'frame': 8, 'upgrade': 4, 'open_ws': 4, 'open_rej': 3}, 'p_async': 0.35}
 RULE = ('seeded histories (opens with every connect outcome, polls, posts, upgrade handshakes, WebSocket frames and closes, application calls, refused requests, clock advances) over up to 4 sessions, each run on the threaded and the asyncio server and through the model; '
         'with malformed bodies, refused requests, API calls in every state incl. no sessions and vanished clients; finished by an advance past ping_interval+ping_timeout, after which every non-upgrade request and API call must have completed with a well-formed gateway response (validators in harness/rt.py). distinct = distinct (server, configuration, stimuli)')
 
 
+def encodings(res):
+    """gateway well-formedness of large responses under every spelling of Accept-Encoding (oracle on the implementation only)"""
+    import rt
+    for kind in ('threaded', 'asyncio'):
+        for threshold in (1024, 0):
+            d = rt.DRIVERS[kind](compression_threshold=threshold)
+            try:
+                for enc in ('gzip', 'GZIP', 'Gzip, deflate', 'Deflate', 'br, Deflate;q=0.5', 'deflate', 'identity', '*', '', 'gzip;q=0'):
+                    for method, body in (('GET', b''), ('POST', b'4hello')):
+                        rid = d.request(dict(method=method, query='transport=polling&sid=' + 'x' * 1100, body=body, headers={'Accept-Encoding': enc}))
+                        rec = d.response(rid)
+                        case = dict(server=kind, accept_encoding=enc, method=method, threshold=threshold)
+                        res.count(('enc', kind, enc, method, threshold), True, 'encoding-grid')
+                        pr = (rec or {}).get('wsgi_problems') or (rec or {}).get('asgi_problems') or []
+                        if rec is None or pr or not isinstance(rec.get('status'), int):
+                            res.violations.append(dict(what='a request was not answered with exactly one well-formed response', case=dict(case, problems=pr, status=rec and rec.get('status')),
+                                                       facts=dict(clause='well-formed', kind='encoding', server=kind, accept_encoding=enc)))
+            finally:
+                d.close()
+
+
 def run(ctx):
-    return hsuite.run(ctx, 'C15', NAMES, PROFILE, RULE)
+    res = hsuite.run(ctx, 'C15', NAMES, PROFILE, RULE)
+    encodings(res)
+    return res
 
 
 def search(ctx, res):
